@@ -2,6 +2,7 @@ import PycsepVerif.Proto
 import PycsepVerif.Model.Filter
 import PycsepVerif.Model.FilterMct
 import PycsepVerif.Model.FilterNan
+import PycsepVerif.Model.FilterText
 /-!
 Driver ops of C04 (all prefixed `c04_`):
 
@@ -13,6 +14,10 @@ Driver ops of C04 (all prefixed `c04_`):
 * `c04_nan EVENTSF STMTSF` → ids kept by `filter`; float fields / thresholds may be `nan`, `inf`, `-inf`
 * `c04_next EVENTS FILTERS0 REGION0 apply(0|1) FILTERS MCT|none spatial(0|1) REGION` → ids of the catalog yielded by
   `CatalogForecast.__next__`, or `exc:noregion`
+
+* `c04_text EVENTSF HEXSTMTS` → ids kept by `filter([texts])` read from the CHARACTERS of the statements, or `err:<kind>`
+  (HEXSTMTS: `-` or statements joined by `;`, each the two-digit hex codes of its ASCII characters)
+* `c04_float HEX` → `float(text)`: `nan` / `inf` / `-inf` / `n/d` / `err`;  `c04_strp HEX` → `strptime_to_utc_epoch(text)` or `err`
 
 MCT     `eventEpoch;tCrit;ids of the rows with mw < mct (comma separated, `-` = none)`
 
@@ -127,7 +132,44 @@ def parseStmtF? (s : String) : Option StmtF :=
 
 def showEvIds (es : List Event) : String := showList (fun (e : Event) => toString e.id) es
 
+def hexVal (c : Char) : Option Nat :=
+  if '0' ≤ c ∧ c ≤ '9' then some (c.toNat - 48) else if 'a' ≤ c ∧ c ≤ 'f' then some (c.toNat - 87) else none
+
+def unhex : List Char → Option (List Char)
+  | [] => some []
+  | a :: b :: r => do
+      let x ← hexVal a
+      let y ← hexVal b
+      let t ← unhex r
+      some (Char.ofNat (x * 16 + y) :: t)
+  | _ => none
+
+def parseHexList? (s : String) : Option (List (List Char)) :=
+  if s = "-" then some [] else (s.splitOn ";").mapM (fun t => if t = "e" then some [] else unhex t.toList)
+
+def showErr : TextErr → String
+  | .unpack => "err:unpack" | .badDate => "err:baddate" | .keyError => "err:keyerror" | .noField => "err:nofield"
+  | .badFloat => "err:badfloat" | .notText => "err:nottext"
+
+def showFVal : FVal → String
+  | .nan => "nan" | .posInf => "inf" | .negInf => "-inf" | .fin q => showRat q
+
 def handle : List String → Option String
+  | ["c04_text", ev, st] => some (
+      match parseSemi? parseEventF? ev, parseHexList? st with
+      | some ev, some st =>
+        (match filterTexts st ev with
+         | .ok es => showList (fun (e : EventF) => toString e.id) es
+         | .error e => showErr e)
+      | _, _ => "bad-op")
+  | ["c04_float", h] => some (
+      match unhex h.toList with
+      | some cs => (match pyFloatF cs with | some v => showFVal v | none => "err")
+      | none => "bad-op")
+  | ["c04_strp", h] => some (
+      match unhex h.toList with
+      | some cs => (match strptimeStmt cs with | some ms => toString ms | none => "err")
+      | none => "bad-op")
   | ["c04_mct", ev, m] => some (
       match parseSemi? parseEvent? ev, parseMct? m with
       | some ev, some m => showEvIds (applyMct m ev)
